@@ -115,7 +115,25 @@ Definition c19_rules : list rule :=
       "utils.IsSafePathComponent" "os.OpenFile"
       "virtual table: the name is checked before it is appended to the table file" ].
 
-Definition co_rules : list rule := c07_rules ++ c10_rules ++ c11_rules ++ c13_rules ++ c19_rules.
+Definition c20_rules : list rule :=
+  [ mkRule "C20.notification_gate_before_email"
+      "co_alerts_alertsHandler__NotifyAlertHandlerRequest"
+      "shouldSendNotification" "sendAlertEmail"
+      "no e-mail leaves without the decision function (state change, silence and cool-down gates: GenC20.gen_shouldSendNotification) having been consulted";
+    mkRule "C20.notification_gate_before_slack"
+      "co_alerts_alertsHandler__NotifyAlertHandlerRequest"
+      "shouldSendNotification" "sendSlack"
+      "no Slack message leaves without the decision function having been consulted";
+    mkRule "C20.notification_gate_before_webhook"
+      "co_alerts_alertsHandler__NotifyAlertHandlerRequest"
+      "shouldSendNotification" "sendWebhooks"
+      "no webhook call leaves without the decision function having been consulted";
+    mkRule "C20.state_stored_before_history_row"
+      "co_alerts_alertsHandler__updateAlertStateAndCreateAlertHistory"
+      "updateAlertState" "databaseObj.CreateAlertHistory"
+      "an evaluation's history row is written only after the alert's state has been stored: the history never runs ahead of the state" ].
+
+Definition co_rules : list rule := c07_rules ++ c10_rules ++ c11_rules ++ c13_rules ++ c19_rules ++ c20_rules.
 
 
 Fixpoint label_id (ls : list (N * string * N)) (name : string) : option N :=
